@@ -221,7 +221,57 @@ impl Dump {
 
     /// Canonical naming of classes: map (sort, canon id) -> name.
     pub fn class_names(&self) -> BTreeMap<(String, u32), String> {
-        // (size, name)
+        // Least ground term per class, in two passes so that the result does not depend on
+        // the order of rows or tables: (1) least fixpoint of the minimum term SIZE per class;
+        // (2) classes in increasing size order: the name is the least string among the rows
+        // that realise the minimum size, composed from the (already final, strictly smaller)
+        // names of the children.
+        let mut size: HashMap<(String, u32), usize> = HashMap::new();
+        fn size_of(v: &V, size: &HashMap<(String, u32), usize>) -> Option<usize> {
+            match v {
+                V::Id(s, _, c) => size.get(&(s.clone(), *c)).copied(),
+                V::Base(_) => Some(1),
+                V::Cont(_, _, items) => {
+                    let mut sz = 1;
+                    for x in items {
+                        sz += size_of(x, size)?;
+                    }
+                    Some(sz)
+                }
+            }
+        }
+        loop {
+            let mut changed = false;
+            for t in &self.tables {
+                if !t.is_constructor || !t.out_is_eq {
+                    continue;
+                }
+                'row: for r in &t.rows {
+                    let n = r.vals.len();
+                    let key = match &r.vals[n - 1] {
+                        V::Id(s, _, c) => (s.clone(), *c),
+                        _ => continue,
+                    };
+                    let mut sz = 1;
+                    for v in &r.vals[..n - 1] {
+                        match size_of(v, &size) {
+                            Some(k) => sz += k,
+                            None => continue 'row,
+                        }
+                    }
+                    match size.get(&key) {
+                        Some(cur) if *cur <= sz => {}
+                        _ => {
+                            size.insert(key, sz);
+                            changed = true;
+                        }
+                    }
+                }
+            }
+            if !changed {
+                break;
+            }
+        }
         let mut best: HashMap<(String, u32), (usize, String)> = HashMap::new();
         fn name_of(v: &V, best: &HashMap<(String, u32), (usize, String)>) -> Option<(usize, String)> {
             match v {
@@ -242,50 +292,63 @@ impl Dump {
                 }
             }
         }
-        loop {
-            let mut changed = false;
-            for t in &self.tables {
-                if !t.is_constructor || !t.out_is_eq {
+        // rows realising the minimum size of their class, grouped by that size
+        let mut by_size: BTreeMap<usize, Vec<(&Table, &Row)>> = BTreeMap::new();
+        for t in &self.tables {
+            if !t.is_constructor || !t.out_is_eq {
+                continue;
+            }
+            'row2: for r in &t.rows {
+                let n = r.vals.len();
+                let key = match &r.vals[n - 1] {
+                    V::Id(s, _, c) => (s.clone(), *c),
+                    _ => continue,
+                };
+                let mut sz = 1;
+                for v in &r.vals[..n - 1] {
+                    match size_of(v, &size) {
+                        Some(k) => sz += k,
+                        None => continue 'row2,
+                    }
+                }
+                if size.get(&key) == Some(&sz) {
+                    by_size.entry(sz).or_default().push((t, r));
+                }
+            }
+        }
+        for (sz, rows) in by_size {
+            let mut round: HashMap<(String, u32), String> = HashMap::new();
+            for (t, r) in rows {
+                let n = r.vals.len();
+                let key = match &r.vals[n - 1] {
+                    V::Id(s, _, c) => (s.clone(), *c),
+                    _ => continue,
+                };
+                let mut parts = vec![];
+                let mut ok = true;
+                for v in &r.vals[..n - 1] {
+                    match name_of(v, &best) {
+                        Some((_, t)) => parts.push(t),
+                        None => ok = false,
+                    }
+                }
+                if !ok {
                     continue;
                 }
-                'row: for r in &t.rows {
-                    let n = r.vals.len();
-                    let (s, c) = match &r.vals[n - 1] {
-                        V::Id(s, _, c) => (s.clone(), *c),
-                        _ => continue,
-                    };
-                    let mut sz = 1;
-                    let mut parts = vec![];
-                    for v in &r.vals[..n - 1] {
-                        match name_of(v, &best) {
-                            Some((k, t)) => {
-                                sz += k;
-                                parts.push(t);
-                            }
-                            None => continue 'row,
-                        }
-                    }
-                    let name = if parts.is_empty() {
-                        format!("({})", t.name)
-                    } else {
-                        format!("({} {})", t.name, parts.join(" "))
-                    };
-                    // big terms are named by a structural hash (still canonical: it depends only
-                    // on the constructor and the children's names), so that names stay short even
-                    // when sub-terms are shared (a DAG would otherwise print exponentially)
-                    let name = if name.len() > 120 { format!("({}#{:016x}/{})", t.name, fnv(&name), sz) } else { name };
-                    let cand = (sz, name);
-                    match best.get(&(s.clone(), c)) {
-                        Some(cur) if *cur <= cand => {}
-                        _ => {
-                            best.insert((s, c), cand);
-                            changed = true;
-                        }
+                let name = if parts.is_empty() { format!("({})", t.name) } else { format!("({} {})", t.name, parts.join(" ")) };
+                // big terms are named by a structural hash (still canonical: it depends only
+                // on the constructor and the children's final names), so that names stay short
+                // even when sub-terms are shared (a DAG would otherwise print exponentially)
+                let name = if name.len() > 120 { format!("({}#{:016x}/{})", t.name, fnv(&name), sz) } else { name };
+                match round.get(&key) {
+                    Some(cur) if *cur <= name => {}
+                    _ => {
+                        round.insert(key, name);
                     }
                 }
             }
-            if !changed {
-                break;
+            for (k, name) in round {
+                best.insert(k, (sz, name));
             }
         }
         let mut names: BTreeMap<(String, u32), String> =
